@@ -58,30 +58,39 @@ def features_at(events, line, why):
     solver's identity x of the insertFormula hook) asserted twice among the active assertions; are the assertions named in
     the violation among those"""
     stack, xs_ok = [[]], True
+    ever = []
     for idx, e in enumerate(events, 1):
         if idx > line:
             break
         if e.get("e") == "Run":
-            stack, xs_ok = [[]], True
+            stack, xs_ok, ever = [[]], True, []
         elif e.get("e") == "Cmd" and e.get("r") == "ok":
             c = e.get("c")
             if c == "assert":
                 if "x" not in e:
                     xs_ok = False
-                stack[-1].append((e.get("nm", ""), e.get("x", -1)))
+                # (name, solver identity, harness term, [(inner name, harness term)])
+                stack[-1].append((e.get("nm", ""), e.get("x", -1), e.get("t"), [(i["nm"], i["t"]) for i in e.get("inner", [])]))
+                ever.append(e.get("x", -1))
             elif c == "push":
                 stack += [[] for _ in range(e.get("n", 1))]
             elif c == "pop":
                 del stack[max(1, len(stack) - e.get("n", 1)):]
-    if not xs_ok:
-        return {}
     act = [a for fr in stack for a in fr]
-    xs = [x for _, x in act]
+    # an active unnamed assertion whose formula also carries a live name (given to another assertion of the same
+    # formula, or to an occurrence of it as a sub-term): the solver's name table is keyed by term
+    named_t = {t for n, x, t, inner in act if n} | {t for n, x, t, inner in act for _, t in inner}
+    named_x = {x for n, x, t, inner in act if n and x != -1}
+    out = {"aliasUnnamed": any((not n) and (t in named_t or (x != -1 and x in named_x)) for n, x, t, inner in act)}
+    if not xs_ok:
+        return out
+    xs = [x for _, x, _, _ in act]
     dupx = {x for x in xs if xs.count(x) > 1}
-    out = {"dupActive": bool(dupx)}
+    out["dupActive"] = bool(dupx)
+    out["dupEver"] = len(set(ever)) != len(ever)      # also copies on levels that have been popped since
     members = why.get("members") if isinstance(why, dict) else None
     if members is not None:
-        out["memberDup"] = any(x in dupx for n, x in act if n in set(members))
+        out["memberDup"] = any(x in dupx for n, x, _, _ in act if n in set(members))
     return out
 
 def run_jobs(jobs, nproc=14):
@@ -314,6 +323,8 @@ def main():
             # without the per-assertion identities fall back to the run-level flag
             v["dupActive"] = feats.get("dupActive", bool(v.get("dup")))
             v["memberDup"] = feats.get("memberDup", bool(v.get("dup")))
+            v["aliasUnnamed"] = feats.get("aliasUnnamed", False)
+            v["dupEver"] = feats.get("dupEver", bool(v.get("dup")))
             hit = next((k for k in known if matches(v, k)), None)
             if hit:
                 known_hits.setdefault(hit["id"], [hit, 0])[1] += 1
